@@ -268,3 +268,40 @@ V("c20-benign-local-dict", "C20", "benign", "", "as_dict builds its result in a 
   "        out = self.dict_value.copy()\n        data = out\n        if private is not False:\n            data.update(params)\n            return data")
 V("c20-benign-recipient-header", "C20", "benign", "", "Recipient.add_header always builds a new dict",
   "rfc7516/models.py", "        elif self.header:\n            self.header.update({k: v})\n        else:\n            self.header = {k: v}", "        else:\n            self.header = {**(self.header or {}), k: v}")
+
+# ------------------------------------------------------------------------------------------------ C18
+V("c18-iv-zeros", "C18", "break", "R18.", "generate_iv returns zeros",
+  "rfc7516/models.py", "        return secrets.token_bytes(self.iv_size // 8)", "        return b\"\\x00\" * (self.iv_size // 8)")
+V("c18-iv-fixed-suffix", "C18", "break", "R18.", "IV has a fixed suffix",
+  "rfc7516/models.py", "        return secrets.token_bytes(self.iv_size // 8)", "        return secrets.token_bytes(self.iv_size // 8 - 4) + b\"\\x00\\x00\\x00\\x01\"")
+V("c18-cek-cached", "C18", "break", "R18.1", "CEK generated once per model",
+  "rfc7516/models.py", "    def generate_cek(self) -> bytes:\n        return secrets.token_bytes(self.cek_size // 8)",
+  "    def generate_cek(self) -> bytes:\n        cek = getattr(self, \"_cek\", None)\n        if cek is None:\n            cek = self._cek = secrets.token_bytes(self.cek_size // 8)\n        return cek")
+V("c18-cek-half-size", "C18", "break", "R18.2", "CEK of half the required size",
+  "rfc7516/models.py", "        return secrets.token_bytes(self.cek_size // 8)", "        return secrets.token_bytes(self.cek_size // 16)")
+V("c18-gcmkw-iv-zero", "C18", "break", "R18.1", "GCM key-wrap IV constant",
+  "rfc7518/jwe_algs.py", "        iv = secrets.token_bytes(iv_size // 8)", "        iv = bytes(iv_size // 8)")
+V("c18-gcmkw-iv-64bit", "C18", "break", "R18.2", "GCM key-wrap IV of 64 bits",
+  "rfc7518/jwe_algs.py", "        iv_size = 96\n", "        iv_size = 64\n")
+V("c18-salt-constant", "C18", "break", "R18.1", "PBES2 salt constant",
+  "rfc7518/jwe_algs.py", "            p2s = secrets.token_bytes(16)", "            p2s = b\"joserfc-pbes2-salt\"")
+V("c18-salt-short", "C18", "break", "R18.2", "PBES2 salt of 4 octets",
+  "rfc7518/jwe_algs.py", "            p2s = secrets.token_bytes(16)", "            p2s = secrets.token_bytes(4)")
+V("c18-p2c-one", "C18", "break", "R18.2", "DEFAULT_P2C = 1",
+  "rfc7518/jwe_algs.py", "    DEFAULT_P2C = 2048", "    DEFAULT_P2C = 1")
+V("c18-module-level-iv", "C18", "break", "R18.1", "IV drawn once at import time",
+  "rfc7516/models.py", "KeyType = t.TypeVar(\"KeyType\")\n", "KeyType = t.TypeVar(\"KeyType\")\n_IV = secrets.token_bytes(16)\n")
+V("c18-random-module-iv", "C18", "break", "R18.", "IV from the random module",
+  "rfc7516/models.py", "        return secrets.token_bytes(self.iv_size // 8)", "        import random\n        return random.randbytes(self.iv_size // 8)")
+V("c18-ephemeral-wrong-curve", "C18", "break", "R18.3", "ephemeral key always on P-256",
+  "rfc7516/models.py", "recipient_key.generate_key(recipient_key.curve_name, private=True)", "recipient_key.generate_key(\"P-256\", private=True)")
+V("c18-ephemeral-on-model", "C18", "break", "R18.3", "ephemeral key cached on the algorithm model",
+  "rfc7516/models.py", "            recipient.ephemeral_key = ephemeral_key\n", "            recipient.ephemeral_key = ephemeral_key\n            self._ephemeral = ephemeral_key\n")
+V("c18-oct-key-truncated", "C18", "break", "R18.2", "generated oct key one octet short",
+  "rfc7518/oct_key.py", "        raw_key = secrets.token_bytes(key_size // 8)", "        raw_key = secrets.token_bytes(key_size // 8 - 1)")
+V("c18-rsa-e3", "C18", "break", "R18.2", "RSA public exponent 3",
+  "rfc7518/rsa_key.py", "            public_exponent=65537,", "            public_exponent=3,")
+V("c18-benign-os-urandom", "C18", "benign", "", "IV from os.urandom",
+  "rfc7516/models.py", "        return secrets.token_bytes(self.iv_size // 8)", "        import os\n        return os.urandom(self.iv_size // 8)")
+V("c18-benign-iv-local", "C18", "benign", "", "IV bound to a local in perform_encrypt via a size variable",
+  "rfc7516/models.py", "        return secrets.token_bytes(self.iv_size // 8)", "        size = self.iv_size // 8\n        value = secrets.token_bytes(size)\n        return value")
